@@ -250,11 +250,13 @@ func init() {
 		jobs: func(tier string) []*job {
 			return []*job{
 				{variant: "plain", mode: "emit", shards: 1, maxResume: 0},
-				{variant: "race", mode: "main", shards: 8, maxResume: 0, gomaxprocs: 16, weight: 4, memlimit: "3GiB", quickTimeout: 15 * time.Minute, stage: 1},
+				// the plain build first: a goroutine that never comes back ends a plain worker at once
+				// through the Go runtime's deadlock report, where a race worker sits until its watchdog
 				{variant: "plain", mode: "main", shards: 8, maxResume: 0, gomaxprocs: 16, weight: 2, memlimit: "3GiB", stage: 1},
 				// one cold-start trial per process life: many short processes
 				{variant: "plain", mode: "coldstart", shards: 48, maxResume: 0, gomaxprocs: 16, weight: 2, stage: 1},
-				{variant: "race", mode: "coldstart", shards: 16, maxResume: 0, gomaxprocs: 16, weight: 2, stage: 1},
+				{variant: "race", mode: "main", shards: 8, maxResume: 0, gomaxprocs: 16, weight: 4, memlimit: "3GiB", quickTimeout: 15 * time.Minute, stage: 2},
+				{variant: "race", mode: "coldstart", shards: 16, maxResume: 0, gomaxprocs: 16, weight: 2, stage: 2},
 			}
 		},
 		require: func(tier string, c, m map[string]int64, s map[string]map[string]struct{}) []string {
